@@ -15,6 +15,7 @@ import (
 func init() {
 	Register(&Scenario{
 		Name:     "term",
+		LazyToo:  true,
 		Property: "C08",
 		Cfg:      vsched.Config{Horizon: 10 * time.Second},
 		Params: func(tier string) []Param {
